@@ -419,7 +419,7 @@ def eq_val(a, b):
         if isinstance(a, Opaque) or isinstance(b, Opaque):
             o = a if isinstance(a, Opaque) else b
             d = b if isinstance(a, Opaque) else a
-            return z3.Const("dtype_" + canonical_dtype(d.name), USORT) == o.term
+            return dtype_const(canonical_dtype(d.name)) == o.term
         return False
     if isinstance(a, (int, float)) and isinstance(b, (int, float)):
         return a == b
@@ -449,8 +449,23 @@ def eq_val(a, b):
     return to_z3(a, "real" if real else "int") == to_z3(b, "real" if real else "int")
 
 
+STR_CONSTS = {}
+DTYPE_CONSTS = {}
+
+
+def dtype_const(name):
+    c = DTYPE_CONSTS.get(name)
+    if c is None:
+        c = DTYPE_CONSTS[name] = z3.Const("dtype_" + name, USORT)
+    return c
+
+
+
 def str_const(s):
-    return z3.Const("str:" + s, USORT)
+    c = STR_CONSTS.get(s)
+    if c is None:
+        c = STR_CONSTS[s] = z3.Const("str:" + s, USORT)
+    return c
 
 
 def not_val(v):
@@ -471,6 +486,8 @@ def not_val(v):
     if is_z3(v):
         return v == 0
     if isinstance(v, (Obj, Opaque)):
+        if isinstance(v, Opaque) and v.ghost.get("truth") is not None:
+            return z3.Not(v.ghost["truth"])
         if isinstance(v, Opaque) and v.ghost.get("maybe_none") is not None:
             return v.ghost["maybe_none"]
         return False
